@@ -30,8 +30,13 @@ CheckTrue(r) ==
 CheckStored(r) == Clause(r.id, "mean_stored",
                          /\ Len(r.mean) = Len(MeanStored(r.ids, r.amps))
                          /\ \A k \in 1..Len(r.mean) : RatEq(r.mean[k], MeanStored(r.ids, r.amps)[k]))
-CheckPeaks(r) == /\ Clause(r.id, "peak_channels", r.channels = PeakChannels(r.W))
-                 /\ Clause(r.id, "durations", r.dur = Durations(r.W))
+\* (relational on ties: any channel of maximal peak-to-peak amplitude is a peak channel; the duration is
+\* taken on a peak channel)
+IsPeak(Wx, p) == p + 1 \in 1..Len(PTP(Wx)) /\ PTP(Wx)[p + 1] = SeqMax(PTP(Wx))
+CheckPeaks(r) == /\ Clause(r.id, "peak_channels", Len(r.channels) = Len(r.W) /\ \A t \in 1..Len(r.W) : IsPeak(r.W[t], r.channels[t]))
+                 /\ Clause(r.id, "durations", Len(r.dur) = Len(r.W) /\ \A t \in 1..Len(r.W) :
+                        \E p \in 0..(Len(r.W[t][1]) - 1) : IsPeak(r.W[t], p) /\
+                           r.dur[t] = FirstArgMax(Col(r.W[t], p + 1)) - FirstArgMin(Col(r.W[t], p + 1)))
 CheckDepths(r) == Clause(r.id, "depths",
                     /\ Len(r.depthq) = Len(r.x)
                     /\ \A k \in 1..Len(r.x) : LET dd == Depth(r.x[k], r.ys[k]) IN
